@@ -171,8 +171,8 @@ func rewriteFile(path, rel string, opt Options, res *Result) error {
 			if opt.Stmt {
 				for _, st := range x.List {
 					switch st.(type) {
-					case *ast.LabeledStmt, *ast.DeclStmt, *ast.EmptyStmt:
-						continue
+					case *ast.LabeledStmt, *ast.DeclStmt, *ast.EmptyStmt, *ast.CaseClause, *ast.CommClause:
+						continue // (the body of a switch/select is a block whose "statements" are its clauses)
 					}
 					addSite(st.Pos(), "stmt", curFunc)
 				}
